@@ -469,7 +469,7 @@ pub fn table() -> Vec<Case> {
 }
 
 pub fn run(ctx: &Ctx) {
-    ctx.rule("sentence templates whose words are slots filled per language from config.json (keyed by operator / constant id / month number): operator words (times|multiply <-> çarpı|carpi|kere|çarp|carp, add|sum|append <-> ekle|topla|toplam, minus|exclude <-> eksi|çıkar|cikar|çıkart|cikart) between numbers, money and durations, duration sums and differences with every unit word, dates in every month-name spelling, date +- duration, date differences (A to B <-> A B arası), today|tomorrow|yesterday; and word-free lines (arithmetic, percentages, money literals / juxtaposed conversion / arithmetic, variable programs) evaluated unchanged in every configured language; oracle: the value in every other language equals the English value exactly; dates and durations are printed with that language's own month names and unit words (parsed back with its word lists into the same day/month/year resp. (count, unit) parts); every other kind prints identically; an exhaustive table covers every operator word, every month name and every duration word; non-trivial = the line evaluates in English and contains a translated word, or is word-free and evaluates to a non-number kind");
+    ctx.rule("sentence templates whose words are slots filled per language from config.json (keyed by operator / constant id / month number): operator words (times|multiply <-> çarpı|carpi|kere|çarp|carp, add|sum|append <-> ekle|topla|toplam, minus|exclude <-> eksi|çıkar|cikar|çıkart|cikart) between numbers, money and durations, duration sums and differences with every unit word, dates in every month-name spelling, date +- duration, date differences (A to B <-> A B arası), today|tomorrow|yesterday; programs with values held in names of one or two words (ilk tarih, vardiya başı): 2-4 duration names in a row (= their sum), 'A to B' <-> 'A B arası' between two date names or two time names, written durations followed by a time range - the last line must also equal the same line written without the names; and word-free lines (arithmetic, percentages, money literals / juxtaposed conversion / arithmetic, variable programs) evaluated unchanged in every configured language; oracle: the value in every other language equals the English value exactly; dates and durations are printed with that language's own month names and unit words (parsed back with its word lists into the same day/month/year resp. (count, unit) parts); every other kind prints identically; an exhaustive table covers every operator word, every month name and every duration word; non-trivial = the line evaluates in English and contains a translated word, or is word-free and evaluates to a non-number kind");
     ctx.assume("only features both languages configure are compared (Turkish has no connective words, zone conversion, unix, base, unit conversion or 'at' rules); 'divide' has no Turkish alias");
     ctx.run_table(&Languages, "all-translatable-words", table(), true);
     ctx.run_generated(&Languages, ctx.tier.pick(100_000, 1_000_000), case_strategy);
